@@ -59,6 +59,7 @@ func HarnessC16Spelling() {
 	verif.Reach("spelling-denotes-src")
 	verif.Observe("src", src)
 	verif.Known("KF-C16-root-link", c16ThroughLink(cwd, src))
+	verif.Known("KF-C16-dotdot-after-link-in-source", c16DotDotAfterLink(src))
 	_, err := p.Pack(src, envWriter())
 	verif.Assert("C16-same-directory-packs", err == nil)
 	if err == nil {
@@ -191,4 +192,38 @@ func HarnessC16Overlap() {
 	if err == nil {
 		verif.Assert("C16-same-entries-whatever-runs-at-the-same-time", c16Key(envTarWritten()) == want)
 	}
+}
+
+// c16DotDotAfterLink: the spelling has a ".." component after a component that is a symlink (as the
+// operating system walks it from the current directory). Pack makes the path absolute with
+// filepath.Abs, which drops "x/.." lexically, so it ends up in a different directory than the one
+// the spelling denotes.
+func c16DotDotAfterLink(src string) bool {
+	p := ""
+	seenLink := false
+	start := 0
+	if len(src) > 0 && src[0] == '/' {
+		p = "/"
+	}
+	for i := 0; i <= len(src); i++ {
+		if i == len(src) || src[i] == '/' {
+			seg := src[start:i]
+			start = i + 1
+			switch seg {
+			case "", ".":
+			case "..":
+				if seenLink {
+					return true
+				}
+				p += "../"
+			default:
+				p += seg
+				if envLstatKind(p) == envLink {
+					seenLink = true
+				}
+				p += "/"
+			}
+		}
+	}
+	return false
 }
